@@ -55,6 +55,10 @@ var c11Faults = []fault{
 	{Target: "SendHeaders", Name: "remaining-lie"},
 	// ---- victim-issued SendV2Blocks
 	{Target: "SendV2Blocks", Name: "silence"},
+	// valid headers of a private fork that only the Byzantine peer can serve,
+	// then silence on the block request (honest workers fail fast on that fork)
+	{Target: "SendV2Blocks", Name: "silence-on-private-fork", View: "private"},
+	{Target: "SendCheckpoint", Name: "silence-on-private-fork", Regime: "above", View: "private"},
 	{Target: "SendV2Blocks", Name: "close"},
 	{Target: "SendV2Blocks", Name: "confused-type"},
 	{Target: "SendV2Blocks", Name: "garbage"},
@@ -326,6 +330,22 @@ func genC11Cases(r *mon.Run) []c11Case {
 			stream++
 			cases = append(cases, c11Case{Stream: stream, Target: "SendCheckpoint", Fault: "state-for-unvalidated-block", Regime: "above", Mix: "B+H", Phased: true, Special: "cross-boundary"})
 		}
+		// private fork + silence: the Byzantine peer's headers are synced before the honest peer connects
+		for _, reg := range []string{"below", "above"} {
+			for i := 0; i < r.Pick(2, 3); i++ {
+				stream++
+				cases = append(cases, c11Case{Stream: stream, Target: "SendV2Blocks", Fault: "silence-on-private-fork", Regime: reg, Mix: "B+H", Phased: true, VictimDials: rng.IntN(2) == 0, HonestDials: rng.IntN(2) == 0})
+			}
+		}
+		stream++
+		cases = append(cases, c11Case{Stream: stream, Target: "SendCheckpoint", Fault: "silence-on-private-fork", Regime: "above", Mix: "B+H", Phased: true, HonestDials: rng.IntN(2) == 0})
+		// a checkpoint block that was never validated by anybody: two attackers
+		for _, fn := range []string{"state-of-parents-sibling", "checkpoint-block-with-v1-transactions"} {
+			for i := 0; i < r.Pick(2, 3); i++ {
+				stream++
+				cases = append(cases, c11Case{Stream: stream, Target: "SendCheckpoint", Fault: fn, Regime: "above", Mix: "2B+H", Phased: true, Special: "unvalidated-checkpoint"})
+			}
+		}
 		// a block id poisoned by a same-id block with another body, then mined by the honest peer
 		for i := 0; i < r.Pick(3, 4); i++ {
 			stream++
@@ -381,6 +401,8 @@ type scene struct {
 	action func(b *p2plab.Byz) error
 	// delivered reports whether the fault reached the victim
 	delivered func(b *p2plab.Byz) bool
+	// hits counts corrupted answers handed out by any of the case's Byzantine peers
+	hits *atomic.Int64
 	// extraBlock: a block outside the tree whose transactions the Byzantine
 	// peer hands out on SendTransactions (overflow rows)
 	extraBlock *types.Block
@@ -406,6 +428,9 @@ func buildScene(r *mon.Run, cc *c11Case) *scene {
 		f = fault{Target: cc.Target, Name: cc.Fault, Regime: cc.Regime}
 	}
 	sc := &scene{cc: cc, f: f, rng: rng}
+	if cc.Special == "unvalidated-checkpoint" {
+		sc.hits = new(atomic.Int64)
+	}
 	var p chainlab.Params
 	prof := chainlab.Profile{MaxTxns: 3}
 	trunk := 0
@@ -484,7 +509,7 @@ func buildScene(r *mon.Run, cc *c11Case) *scene {
 		for _, n := range t.Nodes {
 			if n.ChainValid && n != sc.hTip && !sc.hTip.State().SufficientlyHeavierThan(n.State()) && chainlab.CommonAncestor(n, sc.hTip) != n {
 				sc.hTip = p2plab.Heavier(t, sc.hTip, 1, prof, n)
-				if sc.bTip.ChainValid && f.View != "invalid" && f.View != "madeup" {
+				if sc.bTip.ChainValid && f.View == "" {
 					sc.bTip = sc.hTip
 				}
 			}
@@ -555,11 +580,66 @@ func buildSpecial(sc *scene, prof chainlab.Profile) {
 		}
 		sc.bTip = cur
 		sc.hTip = p2plab.Heavier(t, p2plab.GrowMixed(t, sc.vTip, 90, 4, prof), 1, prof, sc.vTip, cur)
+	case "unvalidated-checkpoint":
+		// everything above the require height. The attackers' fork: 99 valid
+		// blocks on the victim's tip, then a 100th block C that only a chunk
+		// validation would reject, then a few header-only blocks, so that a second
+		// request starts with SendCheckpoint for C. Two Byzantine peers are
+		// workers at the same time: while one answers the first request, the other
+		// is asked for the checkpoint C, which is applied (not validated) by the
+		// worker outside any recover.
+		env := t.Env
+		base := p2plab.GrowMixed(t, t.Root, max(int(env.Net.HardforkV2.RequireHeight)+2, 3)+sc.rng.IntN(5), 2, prof)
+		sc.vTip = base
+		par := p2plab.GrowMixed(t, base, 99, 5, prof)
+		ps := par.L.State
+		miner := env.A(chainlab.Miner).Addr
+		blk := types.Block{
+			ParentID:     par.ID,
+			Timestamp:    par.Block.Timestamp.Add(env.Net.BlockInterval),
+			MinerPayouts: []types.SiacoinOutput{{Address: miner, Value: ps.BlockReward()}},
+			V2:           &types.V2BlockData{Height: ps.Index.Height + 1},
+		}
+		sc.override = map[types.BlockID]consensus.State{}
+		var st consensus.State
+		switch sc.f.Name {
+		case "state-of-parents-sibling":
+			// C commits to the state of a SIBLING of its parent: same height, other
+			// id; every check of SendCheckpoint passes, but the state is not the
+			// parent of the block
+			sib := t.ExtendEmpty(par.Parent, par.Parent.Block.Timestamp.Add(env.Net.BlockInterval*2))
+			if !sib.ChainValid || sib.ID == par.ID {
+				sc.skip = "no sibling state"
+				return
+			}
+			st = sib.L.State
+			blk.V2.Commitment = st.Commitment(miner, nil, nil)
+		default: // "checkpoint-block-with-v1-transactions"
+			blk.Transactions = []types.Transaction{{ArbitraryData: [][]byte{[]byte("NonSia v1 transaction in a checkpoint block")}}}
+			st = ps
+			blk.V2.Commitment = st.Commitment(miner, blk.Transactions, nil)
+		}
+		chainlab.MineNonce(ps, &blk)
+		c := t.Attach(par, blk, sc.f.Name, nil)
+		if c.Valid || !c.OrphanValid {
+			sc.skip = "crafted checkpoint block not labelled as expected: " + c.Err
+			return
+		}
+		sc.override[c.ID] = st
+		y := c
+		for i := 0; i < 6+sc.rng.IntN(6); i++ {
+			y = t.ExtendHeaderOnly(y)
+		}
+		sc.bTip = y
+		sc.hTip = p2plab.Heavier(t, p2plab.GrowMixed(t, base, 8+sc.rng.IntN(8), 3, prof), 1, prof, base)
 	}
 	cc.VictimTip, cc.VictimHeight = sc.vTip.Idx, sc.vTip.Height
 	cc.HonestTip, cc.HonestHeight = sc.hTip.Idx, sc.hTip.Height
 	cc.ByzTip = sc.bTip.Idx
 	sc.delivered = func(b *p2plab.Byz) bool { return b.Counter("faulted:"+sc.f.Target) > 0 }
+	if sc.hits != nil {
+		sc.delivered = func(*p2plab.Byz) bool { return sc.hits.Load() > 0 }
+	}
 }
 
 // buildFault prepares the Byzantine material that has to exist in the tree
@@ -569,6 +649,15 @@ func buildFault(sc *scene, prof chainlab.Profile) {
 	v2ok := sc.vTip.Height+1 >= t.Env.Net.HardforkV2.AllowHeight
 	if f.Regime == "v2" && !v2ok {
 		sc.skip = "victim tip below the allow height"
+		return
+	}
+	if f.View == "private" {
+		// a valid fork nobody else holds, sufficiently heavier than the victim's chain
+		fp := sc.vTip
+		if d := rng.IntN(3); d > 0 && int(sc.vTip.Height) > d {
+			fp = sc.vTip.Ancestor(sc.vTip.Height - uint64(d))
+		}
+		sc.bTip = p2plab.Heavier(t, p2plab.GrowMixed(t, fp, 3+rng.IntN(8), 2, prof), 1, prof, sc.vTip)
 		return
 	}
 	if f.View == "madeup" {
@@ -1106,7 +1195,7 @@ func installHooks(sc *scene, b *p2plab.Byz) {
 			}
 			i := posIndex(pos, n)
 			switch f.Name {
-			case "silence":
+			case "silence", "silence-on-private-fork":
 				return p2plab.Reply{Silence: true, Faulted: true}
 			case "close":
 				return p2plab.Reply{Faulted: true}
@@ -1230,7 +1319,7 @@ func installHooks(sc *scene, b *p2plab.Byz) {
 			}
 			nd := t.ByID[r.Index.ID]
 			switch f.Name {
-			case "silence":
+			case "silence", "silence-on-private-fork":
 				return p2plab.Reply{Silence: true, Faulted: true}
 			case "close":
 				return p2plab.Reply{Faulted: true}
@@ -1328,6 +1417,14 @@ func installHooks(sc *scene, b *p2plab.Byz) {
 				}
 				r.Block = sb
 				return p2plab.Reply{Obj: r, Faulted: true}
+			case "state-of-parents-sibling", "checkpoint-block-with-v1-transactions":
+				if st, ok := sc.override[r.Index.ID]; ok {
+					r.State = st
+					sc.hits.Add(1)
+					// logged before the write: the worker applies this block outside any recover
+					fmt.Printf("note: C11 stream=%d answering SendCheckpoint for the attacker-mined block (%s): id, commitment, height and payout all check out\n", sc.cc.Stream, f.Name)
+					return p2plab.Reply{Obj: r, Faulted: true}
+				}
 			case "state-for-unvalidated-block", "made-up-state-chain":
 				// honest from the attacker's point of view: the block commits to
 				// the made-up (header-derived) state
@@ -1515,7 +1612,13 @@ func runByzCaseResult(r *mon.Run, cc c11Case) (res byzResult) {
 	}
 	if cc.Mix == "2B+H" {
 		b2, err := p2plab.NewByz("byz2", p2plab.ByzIP(slot, 1), t, sc.hTip)
-		if err == nil {
+		if err == nil && cc.Special == "unvalidated-checkpoint" {
+			// both attackers hold the same fork and play the same script
+			b2.SetView(sc.bTip)
+			installHooks(sc, b2)
+			b2.Activity = act
+			byz = append(byz, b2)
+		} else if err == nil {
 			pick := secondFaults[rng.IntN(len(secondFaults))]
 			parts := strings.SplitN(pick, "/", 2)
 			if f2, ok := findFault(parts[0], parts[1], cc.Regime); ok {
@@ -1608,6 +1711,9 @@ func runByzCaseResult(r *mon.Run, cc c11Case) (res byzResult) {
 	var p1, hp *waiter
 	phase1 := func() {
 		connectByz(b1, cc.VictimDials)
+		if cc.Special == "unvalidated-checkpoint" && len(byz) > 1 {
+			connectByz(byz[1], false) // both must be block workers of the same sync round
+		}
 		doAction(b1)
 		limit := 12 * time.Second
 		honestRow := f.Target == "control" || f.Name == "multistep-honest-control"
